@@ -466,14 +466,72 @@ pub struct CbSlot {
     pub has_dtor: bool,
 }
 
-pub fn make_cb(with_destructor: bool) -> (CbSlot, *mut CbData) {
+// Foreign callers need not use pointers for `data`: bindings that keep their closures in a table hand Rust a *handle*
+// (an index), and the first handle of such a table is 0, i.e. a null `data`. In handle mode the harness does the same:
+// handles are never reused within a run, so a second destructor call or a call after release is seen exactly.
+struct HandleEntry {
+    ptr: *mut CbData,
+    id: u32,
+    released: bool,
+}
+thread_local! {
+    static HANDLES: std::cell::RefCell<Vec<HandleEntry>> = const { std::cell::RefCell::new(Vec::new()) };
+}
+
+/// forget all handles (start of a run)
+pub fn reset_cookies() {
+    HANDLES.with(|h| h.borrow_mut().clear());
+}
+
+unsafe extern "C" fn cb_run_h(data: *mut c_void, arg: u32) -> u32 {
+    let idx = data as usize;
+    let (ptr, id, released) = HANDLES.with(|h| h.borrow().get(idx).map(|e| (e.ptr, e.id, e.released))).unwrap_or((std::ptr::null_mut(), 0, true));
+    if released {
+        ledger::note_bad(format!("callback #{} (handle {}) was called after its destructor ran or with a handle never handed out", id, idx));
+        return arg;
+    }
+    cb_run(ptr as *mut c_void, arg)
+}
+
+unsafe extern "C" fn cb_destroy_h(data: *mut c_void) {
+    let idx = data as usize;
+    let e = HANDLES.with(|h| {
+        let mut h = h.borrow_mut();
+        h.get_mut(idx).map(|e| {
+            let was = e.released;
+            e.released = true;
+            (e.ptr, e.id, was)
+        })
+    });
+    match e {
+        Some((ptr, _, false)) => cb_destroy(ptr as *mut c_void),
+        // released before: report it through the ledger as the second drop of the payload it owned
+        Some((_, id, true)) => {
+            ledger::on_drop(id);
+        }
+        None => ledger::note_bad(format!("callback destructor called with handle {} that was never handed out", idx)),
+    }
+}
+
+/// `handle`: hand Rust an index into the harness's table (the first one is 0) instead of a pointer
+pub fn make_cb_cookie(with_destructor: bool, handle: bool) -> (CbSlot, *mut CbData) {
     let tok = Heavy::new();
     let id = tok.id;
     let data = Box::into_raw(Box::new(CbData { tok, calls: 0 }));
     type Variadic = unsafe extern "C" fn(*mut c_void, ...) -> u32;
     type Concrete = unsafe extern "C" fn(*mut c_void, u32) -> u32;
-    let run: Variadic = unsafe { std::mem::transmute::<Concrete, Variadic>(cb_run) };
-    let cb = DiplomatCallback { data: data as *mut c_void, run_callback: run, destructor: if with_destructor { Some(cb_destroy) } else { None } };
+    let cookie = if handle {
+        HANDLES.with(|h| {
+            let mut h = h.borrow_mut();
+            h.push(HandleEntry { ptr: data, id, released: false });
+            (h.len() - 1) as *mut c_void
+        })
+    } else {
+        data as *mut c_void
+    };
+    let run: Variadic = unsafe { std::mem::transmute::<Concrete, Variadic>(if handle { cb_run_h } else { cb_run }) };
+    let destroy: unsafe extern "C" fn(*mut c_void) = if handle { cb_destroy_h } else { cb_destroy };
+    let cb = DiplomatCallback { data: cookie, run_callback: run, destructor: if with_destructor { Some(destroy) } else { None } };
     (CbSlot { cb, data_id: id, has_dtor: with_destructor }, data)
 }
 
